@@ -2,6 +2,9 @@
 //! decaf377 with --no-default-features), both built with --cfg decaf377_verif against /repo.
 mod bfs;
 mod c02;
+mod c05;
+#[cfg(feature = "ark")]
+mod c06;
 mod c07;
 mod c09;
 mod c10;
@@ -91,6 +94,13 @@ fn dispatch(ctx: &Arc<Ctx>) -> &'static str {
             if ctx.prop == "C01" {
                 c02::run(ctx, c02::Mode::C01b);
             }
+            if ctx.prop == "C05" {
+                c05::run(ctx);
+            }
+            #[cfg(feature = "ark")]
+            if ctx.prop == "C06" {
+                c06::run(ctx);
+            }
             "model_checking"
         }
         "C02" => {
@@ -155,6 +165,15 @@ fn replay(doc: &Value) -> i32 {
                     Err(m) => (false, Value::String(format!("panic: {m}"))),
                 },
                 e if e.starts_with("E3/C02") || e.starts_with("E3/C01b") => match guarded(|| c02::replay(&doc["case"], e)) {
+                    Ok(r) => r,
+                    Err(m) => (false, Value::String(format!("panic: {m}"))),
+                },
+                e if e.starts_with("E3/C05") => match guarded(|| c05::replay(&doc["case"])) {
+                    Ok(r) => r,
+                    Err(m) => (false, Value::String(format!("panic: {m}"))),
+                },
+                #[cfg(feature = "ark")]
+                e if e.starts_with("E3/C06") => match guarded(|| c06::replay(&doc["case"])) {
                     Ok(r) => r,
                     Err(m) => (false, Value::String(format!("panic: {m}"))),
                 },
